@@ -193,6 +193,33 @@ func drvTotal(c *ctx) error {
 			}
 			c.emit(totalEvent(c, name, b))
 		}
+	case "small": // EVERY input of length 0..2 over a punctuation/hex alphabet, for every entry point, plus quoted forms
+		alpha := []byte{'0', '1', '9', 'a', 'f', 'F', 'g', 'x', 'X', '"', '{', '}', '[', ']', ':', ',', '-', '+', '.', 'e', 'T', 'Z', ' ', '\\', '=', 0x00, 0x80, 0xff}
+		var ins [][]byte
+		ins = append(ins, []byte{})
+		for _, a := range alpha {
+			ins = append(ins, []byte{a})
+			for _, b := range alpha {
+				ins = append(ins, []byte{a, b})
+			}
+		}
+		hexish := []byte{'0', '1', 'f', 'x', 'X', 'g'}
+		quoted := func(s []byte) []byte { return append(append([]byte{'"'}, s...), '"') }
+		ins = append(ins, quoted(nil))
+		for _, a := range hexish {
+			ins = append(ins, quoted([]byte{a}))
+			for _, b := range hexish {
+				ins = append(ins, quoted([]byte{a, b}))
+				for _, d := range hexish {
+					ins = append(ins, []byte{a, b, d})
+				}
+			}
+		}
+		for _, name := range entryNames {
+			for _, b := range ins {
+				c.emit(totalEvent(c, name, b))
+			}
+		}
 	case "cases": // shapes enumerated by TLC from the specification's guard structure
 		for _, cs := range c.cases {
 			name := cs["entry"].(string)
